@@ -1,11 +1,11 @@
 package kit
 
 import (
-	"os"
 	"crypto/sha256"
 	"encoding/hex"
 	"fmt"
 	"hash"
+	"os"
 	"sort"
 	"time"
 )
@@ -85,13 +85,13 @@ func (r *RunCtx) EventSeq() int64 { return r.seq }
 
 func (r *RunCtx) LogHash() string { return hex.EncodeToString(r.log.Sum(nil)) }
 
-func (r *RunCtx) Fault(kind string)            { r.Faults[kind]++ }
-func (r *RunCtx) Probe(name string)            { r.Probes[name]++ }
-func (r *RunCtx) ProbeN(name string, n int64)  { r.Probes[name] += n }
-func (r *RunCtx) Metric(name string, n int64)  { r.Metrics[name] += n }
-func (r *RunCtx) Head() []string               { return r.head }
-func (r *RunCtx) Full() []string               { return r.full }
-func (r *RunCtx) Failed() bool                 { return len(r.Violations) > 0 }
+func (r *RunCtx) Fault(kind string)           { r.Faults[kind]++ }
+func (r *RunCtx) Probe(name string)           { r.Probes[name]++ }
+func (r *RunCtx) ProbeN(name string, n int64) { r.Probes[name] += n }
+func (r *RunCtx) Metric(name string, n int64) { r.Metrics[name] += n }
+func (r *RunCtx) Head() []string              { return r.head }
+func (r *RunCtx) Full() []string              { return r.full }
+func (r *RunCtx) Failed() bool                { return len(r.Violations) > 0 }
 
 // Violate records an oracle failure (only the first one is reported; later
 // ones are usually consequences).
